@@ -56,6 +56,47 @@ func spec_render(s Snippet, ctx context.Context) string {
 //@   ensures result == (len(v) == 0)
 //@   note only the EMPTY block renders nothing: a block of white space (a line break the generator rendered on purpose) is text like any other
 
+//@ func template.IsNil
+//@   props C09 C01
+//@   pure
+//@   requires t != nil
+//@   ensures result == (len(t.format) == 0)
+//@   note a template is skipped by its parent / by Snippets / by Fragments only when its format is EMPTY: a format of blanks, tabs or line breaks is text the generator wrote on purpose (C09: every character of the format other than leading newlines is rendered)
+
+//@ func printer.IsNil
+//@   props C09 C01
+//@   pure
+//@   requires p != nil
+//@   ensures result == (p.fmt == "")
+
+//@ func Snippets.IsNil
+//@   props C09 C01
+//@   pure
+//@   ensures !result
+
+//@ func fn.IsNil
+//@   props C09 C01
+//@   pure
+//@   ensures !result
+
+//@ func ident.IsNil
+//@   props C09
+//@   pure
+//@   requires i != nil
+//@   ensures result == (i.v == nil)
+
+//@ func value.IsNil
+//@   props C09
+//@   pure
+//@   requires v != nil
+//@   ensures result == (v.v == nil)
+
+//@ func pkgExposer.IsNil
+//@   props C09
+//@   pure
+//@   requires i != nil
+//@   ensures result == (i.typeName == nil)
+
 //@ func Block.Frag
 //@   props C09
 //@   lit 1 yields string(v)
